@@ -10,7 +10,7 @@ def check(run, tier, seed, replay=None):
         vlib.build_harness()
         C14.sliced_extra(run, tier, seed, "missing", ID_SLICE, replay)
         return
-    setcheck.set_check(run, "C03", tier, seed, replay, 1200, 20000, "judge03",
+    setcheck.set_check(run, "C03", tier, seed, replay, 1200, 20000, "judge03g",
                        "C03 object of a later phase written although an earlier phase is incomplete, or wrong phase named as failing",
                        "seeded random worlds: ObjectSets with 1-4 phases x 0-3 objects (ConfigMaps and probed Widgets), members in "
                        "all ownership / status states (ready, failing, stale observedGeneration, absent, uncached), active/paused/new/"
